@@ -40,6 +40,8 @@ def value_alphabets(outs, tier):
                b'%{cmdline}', b"\"'%{cmdline}'\"", b'\'"x"\'', b'"it\'s"', b'only_uid:0;exclude_uid:1',
                # quotes of different kinds at the two ends are not a pair
                b'"q\'', b'\'q"', b'"%{username}" ran \'%{cmdline}\'', b'\'a" "b\'', b'"\'', b'\'"',
+               # values whose parsed form starts with / contains a comment character (only reachable through quotes)
+               b'";abc"', b'"#abc"', b'"a ;b"', b'"a #b"', b'"; "', b"';'", b'"a;b"', b'"[x]"', b'"k = v"', b'"k: v"',
                # values whose parsed form is exactly one quote or blank character
                b'"""', b"'''", b'\'"\'', b'"\'"', b'" "', b'"\t"', b"' '"]
     bools = [bytes([c]) for c in b'yYtT1nNfF0'] + [b'x', b'', b'yes', b'no', b'maybe', b'2', b'TRUE', b'off', b'on']
